@@ -49,6 +49,7 @@ fn init() {
         let _ = actors::SA::try_from_registry();
     }
     futures_util::__verif_set_random_hook(simrt::select_random);
+    async_lock::__verif_set_now_hook(simrt::now_if_active);
     let prev = std::panic::take_hook();
     std::panic::set_hook(Box::new(move |info| {
         if info.payload().is::<actors::InjectedPanic>() {
